@@ -5,6 +5,7 @@ pub mod h_slots;
 pub mod h_rope;
 pub mod dbg;
 pub mod h_ordered;
+pub mod h_unord;
 
 /// run `f`, mapping a panic to `None`
 pub fn guarded<R>(f: impl FnOnce() -> R) -> Option<R> {
